@@ -1,4 +1,6 @@
 import GoaktVerif.Driver.Util
+import GoaktVerif.Driver.Conc
+import GoaktVerif.Model.C14.Conc
 import GoaktVerif.Model.C14
 import GoaktVerif.Spec.C14
 
@@ -32,7 +34,50 @@ def showH : Option Beh → String
   | none => "-"
   | some b => toString b
 
+/-! ### engine E3: `bs | prog0 ; prog1 ; … | schedule` on Model.C14.Conc -/
+
+namespace BS
+open GoaktVerif.Model.C14.Conc
+
+def parseOp (s : String) : Option Conc.Op :=
+  if s = "o" then some .pop
+  else if s = "k" then some .peek
+  else if s = "l" then some .len
+  else if s = "r" then some .reset
+  else if s.startsWith "p" then (s.drop 1).toString.toNat?.map .push
+  else none
+
+def showRes : Res → String
+  | .ok => "ok"
+  | .val none => "nil"
+  | .val (some v) => toString v
+  | .num n => toString n
+
+def machine : Machine where
+  Cfg := Conc.Cfg
+  init := fun cfg progs =>
+    if cfg.trimAscii.toString ≠ "bs" then none else
+    (progs.mapM fun (p : List String) => p.mapM parseOp).map Conc.init
+  nthreads := fun c => c.threads.length
+  done := Conc.done
+  step := fun c tid =>
+    let l := match c.threads[tid]? with
+      | some t => match t.pc with
+        | some pc => Conc.label pc
+        | none => "!done"
+      | none => "!nothread"
+    (l, Conc.step c tid)
+  results := fun c => c.threads.map fun t => t.hist.reverse.map showRes
+  final := fun c =>
+    let ch := Conc.abs c
+    s!"chain={if ch.isEmpty then "-" else ".".intercalate (ch.map toString)} len={c.length}"
+
+end BS
+
+def isBS (line : String) : Bool := (words ((line.splitOn "|").headD "")) == ["bs"]
+
 def model (line : String) : String :=
+  if isBS line then runConc BS.machine line else
   match parseCase line with
   | none => "bad-case"
   | some msgs =>
@@ -45,6 +90,8 @@ def parseH (s : String) : Option (Option Beh) :=
 /-- spec oracle on the implementation's output: documented stack predicts the handler of every message -/
 def judge (line : String) : String :=
   let (c, o) := splitTab line
+  -- E3 lines: the property oracle on the implementation's schedule output is tools/props/c14.py `_bs_oracle`
+  if isBS c then "ok" else
   match parseCase c with
   | none => if o = "bad-case" then "ok" else "bad harness accepted an unparsable case"
   | some msgs =>
